@@ -13,7 +13,7 @@ use refimpl as r;
 use refimpl::{Mode, Poly};
 use serde_json::json;
 
-const RULE: &str = "(i) sig_decode hook on honest, mutated, boundary-forged and hint-malformed signatures: accept/reject and decoded (c~, z, h) must equal the reference sigDecode, and sig_encode of the decoded parts must return the input bytes; (ii) EXHAUSTIVE hint_bit_unpack::<K>(omega, y) over all byte strings y of length omega+K at reduced parameters (K,omega) in {(1,1),(1,2),(2,1)} (thorough adds (1,3),(2,2),(3,1): 2^32 strings each): accept/reject and h equal Algorithm 21, accepted => hint_bit_pack(h) == y, number of accepted strings == sum_{w<=omega} C(256K, w) (bijection); (iii) structure-aware malformed hint sections at real parameters, six malformation classes plus random edits; (iv) bit_pack/bit_unpack/simple variants for every (a,b) the crate uses: every in-range value at slots 0/1/127/255 over all-min and all-max backgrounds, random vectors, random byte strings: unpack(pack(w)) == w, pack(unpack(v)) == v when accepted, acceptance whenever all fields are in range, agreement with the bit-literal reference; (v) pk/sk/w1 encoders against the reference. Non-trivial = distinct byte strings / vectors evaluated per codec (exhaustive sweeps counted by enumeration).";
+const RULE: &str = "(i) sig_decode hook on honest, mutated, boundary-forged and hint-malformed signatures: accept/reject and decoded (c~, z, h) must equal the reference sigDecode, and sig_encode of the decoded parts must return the input bytes; (ii) EXHAUSTIVE hint_bit_unpack::<K>(omega, y) over all byte strings y of length omega+K at reduced parameters (K,omega) in {(1,1),(1,2),(2,1)} (thorough adds (1,3),(2,2),(3,1): 2^32 strings each): accept/reject and h equal Algorithm 21, accepted => hint_bit_pack(h) == y, number of accepted strings == sum_{w<=omega} C(256K, w) (bijection); (iii) structure-aware malformed hint sections at real parameters (weights 0, omega-1, omega, random), six malformation classes plus random edits, each through the hint decoder AND embedded in a whole signature through sig_decode; (iv) bit_pack/bit_unpack/simple variants for every (a,b) the crate uses: every in-range value at slots 0/1/127/255 over all-min and all-max backgrounds, random vectors, random byte strings: unpack(pack(w)) == w, pack(unpack(v)) == v when accepted, acceptance whenever all fields are in range, agreement with the bit-literal reference; (v) pk/sk/w1 encoders against the reference. Non-trivial = distinct byte strings / vectors evaluated per codec (exhaustive sweeps counted by enumeration).";
 
 pub fn run(ctx: &Ctx) -> StageOut {
     let mut acc = Acc::new();
@@ -72,9 +72,19 @@ pub fn check_sig_codec<S: PS>(acc: &mut Acc, class: &str, sig: &[u8]) {
     }
 }
 
-/// hint section alone at real parameters
+/// hint section alone at real parameters, and the same section inside a whole signature (the signature
+/// decoder, not only the hint decoder, must reach the same verdict)
 fn check_hint_codec<S: PS>(acc: &mut Acc, class: &str, y: &[u8]) {
     let p = S::p();
+    {
+        let off = p.sig_len - (p.omega + p.k);
+        let mut sig = vec![0u8; p.sig_len];
+        for (i, b) in sig[..off].iter_mut().enumerate() {
+            *b = (i as u8).wrapping_mul(29) ^ y[i % y.len()];
+        }
+        sig[off..].copy_from_slice(y);
+        check_sig_codec::<S>(acc, &format!("hint-in-signature-{class}"), &sig);
+    }
     acc.eval();
     let replay = || json!({"kind":"hint-codec","set":S::SET,"y":hex(y),"class":class});
     let want = r::hint_bit_unpack(y, p.k, p.omega);
